@@ -41,6 +41,7 @@ if RECHECK:
     c['check'] = results
     c['caught'] = all(r['exit'] == 1 for r in results.values())
     json.dump(meta, open(os.path.join(dst, 'meta.json'), 'w'), indent=1)
+    subprocess.run(['git', '-C', '/verif', 'checkout', '--', 'evidence'])      # evidence/ was rewritten from a mutated tree: restore the committed files
     print(json.dumps(results)[:600]); print('CAUGHT' if c['caught'] else 'MISSED')
     sys.exit(0)
 seed = os.path.join(wt, '_seed')
@@ -120,6 +121,7 @@ if confirmed:
         report['caught'] = all(r['exit'] == 1 for r in results.values())
     finally:
         sh(['git', '-C', '/repo', 'checkout', '--', '.'])
+        sh(['git', '-C', '/verif', 'checkout', '--', 'evidence'])      # evidence/ was rewritten from a mutated tree: restore the committed files
     print('check:', json.dumps(report.get('check'))[:800])
     meta = {}
     try:
